@@ -109,6 +109,12 @@ CHECKS = {
                      "migrates to a project that opens with identical ids/state points/documents/files, a refused migration loses nothing and succeeds after the obstacle is removed, and a second migration is a no-op.",
                 note="Trusted: the AST-shape extraction of the gate (any unexpected shape is a harness error), tmpfs semantics. Outside: non-ASCII names, concurrent migrations, crashes during migration.",
                 ref="DESIGN.md §4 C20"),
+    "C07": dict(tech="SMT-backed symbolic execution (CrossHair+z3) of filterparse / find_jobs / JobsCursor / groupby: symbolic operands and integer tokens through the real token parser, solver-enumerated corpora for cursors and groupby on an in-memory POSIX model",
+                text="Bounded proof: every equivalent spelling (nested vs dotted key, with/without sp. prefix incl. keys that merely start with sp/doc, operator as mapping vs key suffix, mapping vs sequence of pairs) of 7 atom kinds over 5 keys selects the same ids as the per-job oracle; "
+                     "command-line tokens (symbolic ints rendered with str, 20 value tokens incl. words, floats, /regex/, JSON, '!') parse to the mapping they stand for and select the same jobs; for every sub-corpus of 4 jobs and 8 filters a cursor's len / iteration / indexing / every slice / membership describe the oracle's id set; "
+                     "groupby over 12 key forms (top-level, sp./doc. prefixed, nested, tuples, None, callable) x default x filter yields disjoint groups whose union is the selection and whose labels are the members' own values.",
+                note="Trusted: MemFS (validated against tmpfs); oracle refs.match; _print_err stubbed. Outside: the shell entry point itself, unorderable labels.",
+                ref="DESIGN.md §4 C07"),
 }
 NOT_YET = {}
 
